@@ -104,12 +104,22 @@ def modConn (c : String) (f : Conn → Conn) : M Unit := do
   let x ← getConn c
   setConn c (f x)
 
+/-- a kernel never transfers more than it was offered, and hands back exactly `n` bytes -/
+def Tok.sane : Tok → Bool
+  | .sysRead _ len n _ data => n ≤ len && (if n > 0 then data.length == n.toNat else data.isEmpty)
+  | .sysWrite _ data n _ => n ≤ data.length
+  | .sysWritev _ _ data n _ => n ≤ data.length
+  | .sysRecvfrom _ n _ _ data => if n > 0 then data.length == n.toNat else data.isEmpty
+  | _ => true
+
 /-- next token -/
 def pop : M Tok := do
   let s ← get
   match s.toks with
   | [] => throw "trace ended while the model expects more"
-  | t :: rest => set { s with toks := rest }; pure t
+  | t :: rest =>
+    if !t.sane then throw s!"impossible system call result in the trace: {repr t}"
+    set { s with toks := rest }; pure t
 
 def peekTok : M (Option Tok) := do pure (← get).toks.head?
 
@@ -243,7 +253,12 @@ def exec : Nat → Work → M Ret
       | t => mismatch s!"cb OnOpen {c}" t
       exec fuel (.callback "open" c)
     | .connOpen c buf => do
-      -- conn.open(buf): loop of write(2) until done, EAGAIN (buffer the rest) or error
+      -- conn.open(buf): behind data a Write inside OnOpen left in the outbound buffer; otherwise a
+      -- loop of write(2) until done, EAGAIN (buffer the rest) or error
+      if !(← getConn c).outbound.isEmpty then
+        modConn c fun x => { x with outbound := x.outbound ++ buf }
+        pure {}
+      else
       noteSys c
       match ← pop with
       | .sysWrite c' d n err =>
@@ -743,12 +758,28 @@ def topLevel (fuel : Nat) : M Code := do
     | .enter "closeConns" _ _ => do
       let _ ← pop
       let _ ← exec fuel .closeConns
+      if (← get).conns.any (·.2.registered) then throw "closeConns left a registered connection"
       pure .nil
     | .exit _ => do
       let _ ← pop
       modify fun s => { s with exited := true }
       pure .nil
     | t => throw s!"unexpected token at the top level of a round: {repr t}"
+
+/-- after `Polling` has returned (shutdown sentinel or Shutdown action, or a fatal accept error)
+    the loop only closes its connections and exits -/
+def finish (fuel : Nat) : M Unit := do
+  match ← peekTok with
+  | some (.enter "closeConns" _ _) =>
+    let _ ← pop
+    let _ ← exec fuel .closeConns
+    -- closeConns iterates the whole registry: nothing may stay registered
+    if (← get).conns.any (·.2.registered) then throw "closeConns left a registered connection"
+    match ← pop with
+    | .exit _ => modify fun s => { s with exited := true }
+    | t => mismatch "exit" t
+  | some t => mismatch "enter closeConns (the loop has left Polling)" t
+  | none => throw "trace ended although the loop has left Polling"
 
 /-- a whole round -/
 def round : Nat → M Unit
@@ -757,8 +788,13 @@ def round : Nat → M Unit
     match ← peekTok with
     | none => pure ()
     | some _ =>
-      let _ ← topLevel (fuel + 1)
-      round fuel
+      let code ← topLevel (fuel + 1)
+      if code == .shutdown || code == .acceptErr then
+        finish (fuel + 1)
+        match ← peekTok with
+        | none => pure ()
+        | some t => mismatch "end of trace after the loop exited" t
+      else round fuel
 
 /-- accept the tokens of one round from state `s` -/
 def acceptRound (s : RState) (toks : List Tok) : Except String RState :=
